@@ -86,7 +86,7 @@ def collect(tier, sd, rng, greedy=False, extra=()):
             g.arith_snippet(out)
         blocks.append(" ".join(out))
     osets = [["-greedy"], ["-greedy", "-storage"], ["-greedy", "-partition"], ["-greedy", "-no-simplification"]]
-    corpus = gen.mem_pair_corpus() + gen.consuming_rule_corpus() + gen.store_of_load_corpus() + gen.hash_pair_corpus()
+    corpus = gen.mem_pair_corpus() + gen.consuming_rule_corpus() + gen.store_of_load_corpus() + gen.hash_pair_corpus() + gen.dead_load_corpus()
     tasks = [{"kind": "spec", "text": b, "opts": ["-greedy"], "greedy": greedy} for b in list(corpus) + list(extra)] + [{"kind": "spec", "text": b, "opts": osets[i % len(osets)] if tier == "quick" else o, "greedy": greedy}
              for i, b in enumerate(blocks) for o in ([None] if tier == "quick" else osets)]
     groups = {}
@@ -131,6 +131,7 @@ def run(tier):
             meta.append((t, e, Ls))
     outs = drv.batch(reqs)
     samples = []
+    mism = []
     for o, (t, e, Ls) in zip(outs, meta):
         key = o.split(":")[0]
         c["verdict:" + key] += 1
@@ -142,11 +143,35 @@ def run(tier):
                                "what": "in the specification of %s (%s) the operations %s may overlap and are not ordered by %s" %
                                        (" ".join(e["plain"]), t["opts"], o[9:], e["deps"]), "spec": e["spec"]})
         elif o.startswith("mismatch"):
-            violations.append({"kind": "schedule-differs-from-block", "input": " ".join(e["plain"]), "options": t["opts"],
-                               "what": "specification of %s (%s) evaluated under the admissible schedule %s is not the block" %
-                                       (" ".join(e["plain"]), t["opts"], o.split(":", 2)[2]), "spec": e["spec"], "no_failing_input": False})
+            # the normal forms differ: that is a question, not an answer - look for a state on which the specification evaluated under that
+            # schedule and the block really differ
+            mism.append((t, e, o.split(":", 2)[2]))
         else:
             c["undecided:" + o[:40]] += 1
+    sreqs, smeta = [], []
+    for t, e, sched in mism:
+        need = len([x for x in e["spec"][0].split(",") if x])
+        nd = drv.batch(["NEED\t%s" % e["tokens"]])[0].split()
+        if nd and nd[0].isdigit():
+            need = max(need, int(nd[0]))
+        for sd_, stk in gen.states(rng, need, 24 if tier == "quick" else 48):
+            sreqs.append("SPECRUN\t%d\t%s\t%s\t%s\t%s" % (sd_, stk, e["tokens"], "\t".join(e["spec"]), sched))
+            smeta.append((t, e, sched, sd_, stk))
+    shown = set()
+    decided = {}
+    for o, (t, e, sched, sd_, stk) in zip(drv.batch(sreqs), smeta):
+        key = (" ".join(e["plain"]), tuple(t["opts"]), sched)
+        if o.startswith("diff") and key not in shown:
+            shown.add(key)
+            violations.append({"kind": "schedule-differs-from-block", "input": " ".join(e["plain"]), "options": t["opts"],
+                               "what": "specification of %s (%s) evaluated under the admissible schedule %s is not the block: from the seeded state %d with stack [%s]: %s" %
+                                       (" ".join(e["plain"]), t["opts"], sched, sd_, stk, o[5:]), "spec": e["spec"], "state": {"seed": sd_, "stack": stk}, "no_failing_input": False})
+        elif o.startswith("error"):
+            raise common.MachineryError("driver SPECRUN: " + o)
+        decided.setdefault(key, set()).add(o.split(":")[0])
+    for key, vs in decided.items():
+        if "diff" not in vs:
+            c["undecided:normal-forms-differ-but-no-state-distinguishes"] += 1
     cov = {"obligations": po["obligations"], "discharged": po["discharged"],
            "checker_cmd": "cd lean && lake build GasolVerif gvdrv; #print axioms " + ", ".join(THEOREMS),
            "trusted_base": ["Lean 4.33 kernel", "axioms: propext, Classical.choice, Quot.sound", "Evm.lean / Term.lean semantics",
